@@ -768,35 +768,53 @@ Ltac qcases :=
 Lemma term_square : forall k t s, k * (t + s) * (t + s) == k * t * t + (2 * k * t) * s + k * s * s.
 Proof. intros. ring. Qed.
 
+(* multiply an inequality between opaque terms by a non-negative factor *)
+Lemma scale_le : forall k a b, 0 <= k -> a <= b -> k * a <= k * b.
+Proof. intros k a b Hk H. nra. Qed.
+
 (* inequalities: phi(t) = k max(0,t)^2 lies between its tangent and tangent + k s^2: differentiable, derivative
    2 k max(0,t), convex; monotone, so it composes with a convex constraint *)
+Lemma hinge_square0 : forall t s ty, t + s <= ty ->
+  qmax 0 t * qmax 0 t + (2 * qmax 0 t) * s <= qmax 0 ty * qmax 0 ty.
+Proof. intros t s ty Hy. unfold qmax. qcases; try lra; nra. Qed.
 Lemma term_hinge_square : forall k t s ty, 0 <= k -> t + s <= ty ->
   k * qmax 0 t * qmax 0 t + (2 * k * qmax 0 t) * s <= k * qmax 0 ty * qmax 0 ty.
 Proof.
-  intros k t s ty Hk Hy. unfold qmax. qcases; try lra; nra.
+  intros k t s ty Hk Hy. pose proof (scale_le k _ _ Hk (hinge_square0 t s ty Hy)) as H.
+  revert H. generalize (qmax 0 t) (qmax 0 ty). intros a b H. lra.
 Qed.
+Lemma hinge_square_upper0 : forall t s,
+  qmax 0 (t + s) * qmax 0 (t + s) <= qmax 0 t * qmax 0 t + (2 * qmax 0 t) * s + s * s.
+Proof. intros t s. unfold qmax. qcases; try lra; nra. Qed.
 Lemma term_hinge_square_upper : forall k t s, 0 <= k ->
   k * qmax 0 (t + s) * qmax 0 (t + s) <= k * qmax 0 t * qmax 0 t + (2 * k * qmax 0 t) * s + k * s * s.
 Proof.
-  intros k t s Hk. unfold qmax. qcases; try lra; nra.
+  intros k t s Hk. pose proof (scale_le k _ _ Hk (hinge_square_upper0 t s)) as H.
+  revert H. generalize (qmax 0 t) (qmax 0 (t + s)). intros a b H. lra.
 Qed.
 
 (* linear penalty: |.| and max(0,.) are convex, the code's coefficient is a sub-gradient, and it is the derivative
    away from the kink *)
+Lemma abs_subgradient0 : forall v s, qabs v + sgn v * s <= qabs (v + s).
+Proof. intros v s. unfold qabs, sgn. qcases; lra. Qed.
 Lemma term_abs_subgradient : forall k v s, 0 <= k -> k * qabs v + (k * sgn v) * s <= k * qabs (v + s).
 Proof.
-  intros k v s Hk. unfold qabs, sgn. qcases; try lra; nra.
+  intros k v s Hk. pose proof (scale_le k _ _ Hk (abs_subgradient0 v s)) as H.
+  revert H. generalize (qabs v) (qabs (v + s)) (sgn v). intros a b c H. lra.
 Qed.
+Lemma abs_derivative0 : forall v s, qabs s < qabs v -> qabs (v + s) == qabs v + sgn v * s.
+Proof. intros v s. unfold qabs, sgn. qcases; intro H; lra. Qed.
 Lemma term_abs_derivative : forall k v s, qabs s < qabs v -> k * qabs (v + s) == k * qabs v + (k * sgn v) * s.
-Proof.
-  intros k v s. unfold qabs, sgn. qcases; intro H; try lra; try ring.
-Qed.
+Proof. intros k v s H. rewrite (abs_derivative0 v s H). ring. Qed.
+Lemma hinge_subgradient0 : forall v s vy, v + s <= vy -> qmax 0 v + pos v * s <= qmax 0 vy.
+Proof. intros v s vy Hy. unfold qmax, pos. qcases; lra. Qed.
 Lemma term_hinge_subgradient : forall k v s vy, 0 <= k -> v + s <= vy ->
   k * qmax 0 v + (k * pos v) * s <= k * qmax 0 vy.
 Proof.
-  intros k v s vy Hk Hy. unfold qmax, pos. qcases; try lra; nra.
+  intros k v s vy Hk Hy. pose proof (scale_le k _ _ Hk (hinge_subgradient0 v s vy Hy)) as H.
+  revert H. generalize (qmax 0 v) (qmax 0 vy) (pos v). intros a b c H. lra.
 Qed.
+Lemma hinge_derivative0 : forall v s, qabs s < qabs v -> qmax 0 (v + s) == qmax 0 v + pos v * s.
+Proof. intros v s. unfold qabs, qmax, pos. qcases; intro H; lra. Qed.
 Lemma term_hinge_derivative : forall k v s, qabs s < qabs v -> k * qmax 0 (v + s) == k * qmax 0 v + (k * pos v) * s.
-Proof.
-  intros k v s. unfold qabs, qmax, pos. qcases; intro H; try lra; try ring.
-Qed.
+Proof. intros k v s H. rewrite (hinge_derivative0 v s H). ring. Qed.
